@@ -49,6 +49,18 @@ def check_bin(ctx, binImgs, rng):
         ctx.check(np.array_equal(got.astype(np.float64), want.astype(np.float64)), "binImgs:block_sums:" + cls,
                   "binned values differ from the n x n block sums", wit)
         ctx.check(float(got.astype(np.float64).sum()) == float(data.astype(np.float64).sum()), "binImgs:flux", "total flux not preserved", wit)
+    # 64-bit integer counts beyond 2^53 (accumulated / co-added frames, packed detector words): exactly representable in the
+    # image's own dtype, not in a double; block sums stay below 2^60, a factor 8 from the end of the range
+    for dt64 in (np.int64, np.uint64):
+        d64 = (np.asarray(data, dtype=np.float64).astype(dt64) + dt64(2 ** 53 + 1)) if data.size else data.astype(dt64)
+        w64 = d64.reshape(lead + (a, n, b, n)).sum(axis=(-3, -1), dtype=dt64)
+        g64 = np.asarray(binImgs(d64, n))
+        wit64 = dict(wit, dtype=str(np.dtype(dt64)), values="2^53 + 1 + [0, 100)")
+        ctx.case("binImgs_wide_integers", key=(shape, n, str(dt64)), nontrivial=d64.size > 1, sample=wit64)
+        if ctx.check(g64.shape == w64.shape, "binImgs:shape", "shape %s != %s" % (g64.shape, w64.shape), wit64):
+            exact = (np.array_equal(g64, w64) if g64.dtype.kind in "iu" else
+                     all(int(x) == int(y) for x, y in zip(np.asarray(g64, dtype=object).ravel(), w64.ravel())))
+            ctx.check(bool(exact), "binImgs:block_sums:integers_above_2^53", "block sums of a 64-bit integer image are not the exact integer sums", wit64)
     # high dynamic range (a hot / saturated pixel next to a faint background): every block sum depends on its own block only
     if n >= 2 and a * b >= 2:
         import math
